@@ -99,6 +99,9 @@ def run_property(mod, ctx, only=None, do_hunt=True):
     for r, out in violations:
         print("VIOLATION property=%s replay=%s" % (pid, out["replay"]))
         sys.stderr.write("  failing: %s\n" % "; ".join(out.get("failed", [])[:4]))
+        rel = out.get("release_like_fails")
+        sys.stderr.write("  replayed natively: fails in the dev profile (the one Kani models); release-like profile: %s\n"
+                         % ("fails too" if rel else ("does not fail" if rel is False else "not run / did not build")))
     for r, why in inconclusive:
         sys.stderr.write("[%s] INCONCLUSIVE %s: %s | %s\n" % (pid, r.key(), why, "; ".join(r.failed[:3])))
     problems = spec.get("problems", [])
@@ -220,7 +223,8 @@ def write_evidence(pid, ctx, spec, results, known_hits, violations, inconclusive
             "known_findings_hit": [{"job": r.key(), "what": k["what"]} for r, k in known_hits],
             "inconclusive": [{"job": r.key(), "why": why[:300]} for r, why in inconclusive][:20],
             "real_arithmetic_lemmas": [{"name": l["name"], "verdict": l["verdict"], "solver": l["solver"], "secs": round(l["secs"], 2), "note": l.get("note", "")} for l in lemma_results],
-            "violations_found": [{"job": r.key(), "replay": o["replay"], "failed": o.get("failed", [])[:5]} for r, o in violations],
+            "violations_found": [{"job": r.key(), "replay": o["replay"], "failed": o.get("failed", [])[:5],
+                                  "replayed": "dev profile: fails", "release_like_profile_fails": o.get("release_like_fails")} for r, o in violations],
         },
         "assumptions": spec.get("assumptions", []),
         "wall_s": round(wall, 1),
